@@ -36,11 +36,121 @@ pub fn check(c: &Case) -> CheckResult {
         .class_if(s.aborted.is_some(), "aborted_on_api_error"))
 }
 
+// ------------------------------------------------------------------ puts that fail
+
+#[derive(Debug, Clone, serde::Serialize, serde::Deserialize)]
+pub enum FStep {
+    Put { seed: u32, len: u16 },
+    /// put_with_embedding; the dimension is 1 + dim % 3, so different steps conflict
+    PutEmb { seed: u32, dim: u8 },
+    /// capacity = current payload end + allowance: later puts fail with CapacityExceeded
+    Ticket { allowance: u16 },
+    Delete { target: u8 },
+    Commit,
+}
+
+#[derive(Debug, Clone, serde::Serialize, serde::Deserialize)]
+pub struct FCase {
+    pub steps: Vec<FStep>,
+}
+
+/// A put that returns an error reserves no id: `next_frame_id()` is unchanged by it, and the next
+/// successful document materialises at the id predicted for it.
+pub fn check_failed_puts(c: &FCase) -> CheckResult {
+    use crate::runner::Fail;
+    use memvid_core::{Memvid, PutOptions, Ticket};
+    let dir = crate::util::Scratch::new("c06f");
+    let path = dir.path("m.mv2");
+    let mut mem = Memvid::create(&path).map_err(|e| Fail::new("infra", e.to_string()))?;
+    let mut expected: Vec<(String, u64)> = Vec::new();
+    let mut failed_puts = 0u32;
+    let mut failed_then_ok = false;
+    let mut last_failed = false;
+    let mut seq = 1i64;
+    for (i, st) in c.steps.iter().enumerate() {
+        match st {
+            FStep::Put { .. } | FStep::PutEmb { .. } => {
+                let predicted = mem.next_frame_id();
+                let uri = format!("mv2://f/{i}.bin");
+                let mut o = PutOptions::default();
+                o.uri = Some(uri.clone());
+                o.timestamp = Some(100 + i as i64);
+                let r = match st {
+                    FStep::Put { seed, len } => mem.put_bytes_with_options(&crate::gen::gen_blob(*seed, *len as u32 + 1, crate::gen::BlobKind::Random), o),
+                    FStep::PutEmb { seed, dim } => {
+                        let d = 1 + (*dim as usize % 3);
+                        let v: Vec<f32> = (0..d).map(|k| ((*seed as usize + k) % 17) as f32 / 17.0 + 0.1).collect();
+                        mem.put_with_embedding_and_options(format!("embedded note {seed}").as_bytes(), v, o)
+                    }
+                    _ => unreachable!(),
+                };
+                match r {
+                    Ok(_) => {
+                        expected.push((uri, predicted));
+                        if last_failed {
+                            failed_then_ok = true;
+                        }
+                        last_failed = false;
+                    }
+                    Err(e) => {
+                        failed_puts += 1;
+                        last_failed = true;
+                        let now = mem.next_frame_id();
+                        crate::ensure!(now == predicted, "C06:failed-put-consumed-an-id", "step {i}: the put failed ({e}) but next_frame_id() went from {predicted} to {now}");
+                    }
+                }
+            }
+            FStep::Ticket { allowance } => {
+                seq += 1;
+                let end = (0..mem.frame_count() as u64).filter_map(|i| mem.frame_by_id(i).ok()).map(|f| f.payload_offset + f.payload_length).max().unwrap_or(0);
+                let _ = mem.apply_ticket(Ticket::new("c06", seq).capacity_bytes(end.max(70_000) + *allowance as u64));
+            }
+            FStep::Delete { target } => {
+                let n = mem.frame_count() as u64;
+                if n > 0 {
+                    let _ = mem.delete_frame(*target as u64 % n);
+                }
+            }
+            FStep::Commit => {
+                if mem.commit().is_err() {
+                    return Ok(CaseInfo::trivial().class("aborted_on_commit_error"));
+                }
+            }
+        }
+    }
+    if mem.commit().is_err() {
+        return Ok(CaseInfo::trivial().class("aborted_on_commit_error"));
+    }
+    for (uri, id) in &expected {
+        // deleted documents cannot be looked up by uri
+        if let Ok(f) = mem.frame_by_uri(uri) {
+            crate::ensure!(f.id == *id, "C06:predicted-id", "document {uri} was predicted at id {id} (next_frame_id() before its put) but materialised at {} ({failed_puts} failed puts in the history)", f.id);
+        }
+    }
+    for i in 0..mem.frame_count() as u64 {
+        let f = mem.frame_by_id(i).map_err(|e| Fail::new("C06:frame-by-id", format!("frame_by_id({i}) failed: {e}")))?;
+        crate::ensure!(f.id == i, "C06:frame-by-id", "frame_by_id({i}).id == {}", f.id);
+    }
+    Ok(CaseInfo::nontrivial(failed_then_ok).class_if(failed_puts > 0, "has_failed_put").class_if(failed_then_ok, "successful_put_after_failed_put"))
+}
+
+fn fcase() -> impl Strategy<Value = FCase> {
+    let step = prop_oneof![
+        5 => (any::<u32>(), prop_oneof![1u16..400, 400u16..6000]).prop_map(|(seed, len)| FStep::Put { seed, len }),
+        4 => (any::<u32>(), 0u8..3).prop_map(|(seed, dim)| FStep::PutEmb { seed, dim }),
+        1 => (0u16..3000).prop_map(|allowance| FStep::Ticket { allowance }),
+        1 => any::<u8>().prop_map(|target| FStep::Delete { target }),
+        2 => Just(FStep::Commit),
+    ];
+    prop::collection::vec(step, 2..14).prop_map(|steps| FCase { steps })
+}
+
 pub fn build(ctx: &Ctx) -> Vec<Box<dyn Arm>> {
     ctx.rule("C01-style histories plus Vacuum and Doctor(all option combinations); before every put/update the harness reads next_frame_id(); oracle: the document later materialises at exactly that id, frame_by_id(i).id == i for all i, a document never moves (id, chunk count, content digest fixed once observed), frame_by_uri returns the newest active version; non-trivial = a put after a commit (log sequence != frame id) and (a chunked document or an update)");
     ctx.assume("API errors (put/commit/vacuum/doctor) end the history without a C06 verdict (they belong to C01/C42/C21); Memvid::open failing is reported because identity cannot be observed at all");
+    ctx.rule("arm failed_puts: histories of plain puts, embedded puts with conflicting dimensions, capacity tickets that make later puts fail, deletes and commits; oracle: a put that returns Err leaves next_frame_id() unchanged, every successful document materialises at the id predicted before its put, frame_by_id(i).id == i; non-trivial = a successful put follows a failed one");
     let t = ctx.tier;
-    vec![arm_with(
+    vec![arm_with("failed_puts", t.pick(150, 3000), 8, t.pick(60, 200), fcase, check_failed_puts), arm_with(
         "history",
         t.pick(160, 2000),
         8,
